@@ -44,7 +44,9 @@ func (l *List) MultiUse(st funcGen.Stack[Value]) (Map, error) {
 		}
 		// The distributor asks for the next item before it notices that all consumers
 		// are done; a source that has delivered an error must not be asked again.
-		err := run(endBehindError(l.iterable(st)))
+		// A panic in the source has to reach the consumers as an error, too: they run
+		// in goroutines of their own and wait for the end of the list.
+		err := run(guardProducer(l.iterable(st)))
 
 		if err != nil {
 			return EmptyMap, err
